@@ -199,6 +199,17 @@ DEN = z3.Function("den", Seq, Atom, z3.RealSort())                 # composition
 DENP = z3.Function("den_prefix", Seq, z3.IntSort(), Atom, z3.RealSort())
 SUP = z3.Function("sup", Seq, Atom, z3.BoolSort())                 # a occurs as a leaf
 SUPP = z3.Function("sup_prefix", Seq, z3.IntSort(), Atom, z3.BoolSort())
+CONCAT = z3.Function("concat", Seq, Seq, Seq)
+
+
+def contrib(f, a):
+    """contribution of one fragment to the count of atom a (per unit count)"""
+    return z3.If(Frag.is_fatom(f), z3.If(Frag.atom_of(f) == a, z3.RealVal(1), z3.RealVal(0)),
+                 DEN(Frag.seq_of(f), a))
+
+
+def occurs(f, a):
+    return z3.If(Frag.is_fatom(f), Frag.atom_of(f) == a, SUP(Frag.seq_of(f), a))
 
 
 class SeqTheory:
@@ -250,17 +261,53 @@ class SeqTheory:
             return a.expr == b.expr
         raise Unsupported("structure == other")
 
+    def kind_is_tuple(self, v):
+        k = getattr(v, "kind", None)
+        if k == "tuple":
+            return True
+        if k == "list":
+            return False
+        return SISTUPLE(v.expr)
+
     def isinstance(self, interp, st, v, names):
         r = False
         for n in names:
             if n == "tuple":
-                r = interp.or_(r, SISTUPLE(v.expr))
+                r = interp.or_(r, self.kind_is_tuple(v))
             elif n == "list":
-                r = interp.or_(r, z3.Not(SISTUPLE(v.expr)))
+                r = interp.or_(r, interp.not_(self.kind_is_tuple(v)))
         return r
 
     def len(self, interp, st, v):
         return SLEN(v.expr)
+
+    def with_kind(self, v, kind):
+        r = VSym(v.expr, self)
+        r.kind = kind
+        return r
+
+    def to_list(self, interp, st, v):
+        return self.with_kind(v, "list")
+
+    def to_tuple(self, interp, st, v):
+        return self.with_kind(v, "tuple")
+
+    def concat(self, interp, st, a, b):
+        """a + b for two sequences (A3 list/tuple concatenation): length and items by definition"""
+        c = CONCAT(a.expr, b.expr)
+        i = z3.Int("i!cat")
+        st.assume(SLEN(c) == SLEN(a.expr) + SLEN(b.expr))
+        if st.ghost.get("concat_items"):
+            # item-wise definition, needed only where the concat lemma itself is proved
+            st.assume(z3.ForAll([i], z3.Implies(z3.And(i >= 0, i < SLEN(a.expr)),
+                                                z3.And(SCOUNT(c, i) == SCOUNT(a.expr, i), SFRAG(c, i) == SFRAG(a.expr, i)))))
+            st.assume(z3.ForAll([i], z3.Implies(z3.And(i >= 0, i < SLEN(b.expr)),
+                                                z3.And(SCOUNT(c, SLEN(a.expr) + i) == SCOUNT(b.expr, i),
+                                                       SFRAG(c, SLEN(a.expr) + i) == SFRAG(b.expr, i)))))
+        st.assume(DEPTH(c) >= 0)
+        r = VSym(c, self)
+        r.kind = getattr(a, "kind", None)
+        return r
 
     def item(self, interp, st, v, i):
         s = v.expr
@@ -289,17 +336,11 @@ class SeqTheory:
     def unpack(self, interp, st, v, n):
         raise Unsupported("unpack of structure")
 
-    def to_list(self, interp, st, v):
-        h = st.ghost.get("seq_to_list")
+    def comprehension(self, interp, st, fr, elt, g, it):
+        h = st.ghost.get("seq_comprehension")
         if h:
-            return h(interp, st, v)
-        raise Unsupported("list(structure)")
-
-    def to_tuple(self, interp, st, v):
-        h = st.ghost.get("seq_to_tuple")
-        if h:
-            return h(interp, st, v)
-        raise Unsupported("tuple(structure)")
+            return h(interp, st, fr, elt, g, it)
+        raise Unsupported("comprehension over a symbolic sequence (line %s) needs a comprehension contract" % g.iter.lineno)
 
 
 class FragTheory:
@@ -346,3 +387,50 @@ class FragTheory:
 
     def unpack(self, interp, st, v, n):
         raise Unsupported("unpack of fragment")
+
+
+def den_of(interp, st, value, a):
+    """denotation of a (possibly hybrid: concrete tuples holding symbolic parts) structure at atom a"""
+    from .values import VTuple, VList
+    if isinstance(value, VSym):
+        th = value.theory
+        if isinstance(th, SeqTheory):
+            th.whole(st, value.expr, a)
+            return DEN(value.expr, a)
+        if isinstance(th, FragTheory):
+            return contrib(value.expr, a)
+        if isinstance(th, AtomTheory):
+            return z3.If(value.expr == a, z3.RealVal(1), z3.RealVal(0))
+    if isinstance(value, (VTuple, VList)):
+        total = z3.RealVal(0)
+        for pair in value.items:
+            if not (isinstance(pair, (VTuple, VList)) and len(pair.items) == 2):
+                raise Unsupported("structure entry is not a (count, fragment) pair")
+            c, f = pair.items
+            total = total + to_real(c) * den_frag(interp, st, f, a)
+        return total
+    raise Unsupported("denotation of %r" % type(value).__name__)
+
+
+def den_frag(interp, st, f, a):
+    from .values import VTuple, VList
+    if isinstance(f, VSym):
+        th = f.theory
+        if isinstance(th, AtomTheory):
+            return z3.If(f.expr == a, z3.RealVal(1), z3.RealVal(0))
+        if isinstance(th, FragTheory):
+            return contrib(f.expr, a)
+        if isinstance(th, SeqTheory):
+            th.whole(st, f.expr, a)
+            return DEN(f.expr, a)
+    if isinstance(f, (VTuple, VList)):
+        return den_of(interp, st, f, a)
+    raise Unsupported("fragment %r" % type(f).__name__)
+
+
+def unfold_small(st, seqth, S, a, upto=3):
+    """definitional unfoldings of den/sup for the first few indices (sound, just instances)"""
+    seqth.whole(st, S, a)
+    seqth.base_prefix(st, S, a)
+    for i in range(upto):
+        seqth.unfold_prefix(st, S, z3.IntVal(i), a)
